@@ -7,10 +7,13 @@ import time
 
 VERIF = os.path.dirname(os.path.dirname(os.path.abspath(__file__)))
 REPO = os.environ.get("VERIF_REPO", "/repo")
-WORK = os.path.join(VERIF, "work")
+WORK = os.environ.get("VERIF_WORK", os.path.join(VERIF, "work"))
 TARGET = os.environ.get("VERIF_TARGET", os.path.join(VERIF, "target"))
-EVID = os.path.join(VERIF, "evidence")
-REPLAYS = os.path.join(VERIF, "replays")
+# runs against a scratch copy (VERIF_REPO) or under the mutant self-test (VERIF_SCRATCH=1) must not clobber the
+# evidence of /repo itself
+_ALT = REPO != "/repo" or os.environ.get("VERIF_SCRATCH") == "1"
+EVID = os.path.join(WORK, "scratch_evidence") if _ALT else os.path.join(VERIF, "evidence")
+REPLAYS = os.path.join(WORK, "scratch_replays") if _ALT else os.path.join(VERIF, "replays")
 NCPU = int(os.environ.get("VERIF_JOBS", "16"))
 
 
